@@ -138,13 +138,20 @@ impl Prop for C07 {
             let mut case = Case { prop: "C07".into(), seed, cfg, ..Default::default() };
             let keys = [oscode_of("a"), oscode_of("b"), oscode_of("c"), oscode_of("d")];
             let mut ops = vec![];
+            // one pause per case may be longer than a 16-bit tick counter holds: time that passed
+            // while blocked must not be taken modulo 65536 anywhere
+            let mut wrap_left = if r.chance(300) { 1 } else { 0 };
             for _ in 0..r.range(2, 7) {
                 let k = *r.pick(&keys);
                 ops.push(Op::Press(k));
                 ops.push(Op::Gap(*r.pick(&[1u32, 2, 5, 15])));
                 ops.push(Op::Release(k));
                 let th = *r.pick(&[t, t2]);
-                let g = *r.pick(&[th.saturating_sub(2), th.saturating_sub(1), th, th + 1, th + 2, th + 50, th * 10, 3, 1]);
+                let mut g = *r.pick(&[th.saturating_sub(2), th.saturating_sub(1), th, th + 1, th + 2, th + 50, th * 10, 3, 1]);
+                if wrap_left > 0 && r.chance(400) {
+                    wrap_left -= 1;
+                    g = *r.pick(&[65_535u64, 65_536, 65_537, 65_536 + th / 2, 65_536 + th.saturating_sub(1), 65_536 + th + 1, 131_072 + th / 2]);
+                }
                 ops.push(Op::Gap(g.max(1) as u32));
             }
             ops.push(Op::Gap(r.range(100, 1500) as u32));
